@@ -305,6 +305,14 @@ def main():
         if gate:
             infra("forbidden construct in the Coq development:\n" + "\n".join(gate))
         props_ok, thms, discharged, assumptions, perr = compile_props(pid)
+        # a private copy of the harness binary: a check started with another VERIF_REPO may rebuild build/p2h as soon
+        # as the lock is released (seeded changes tried side by side)
+        global P2H
+        priv = os.path.join(BUILD, "p2h-%s-%d" % (pid, os.getpid()))
+        subprocess.run(["cp", P2H, priv], check=True)
+        P2H = priv
+        import atexit
+        atexit.register(lambda: os.path.exists(priv) and os.remove(priv))
     model_files = cfg.get("model_files", [])
     run_file = cfg.get("run_file")
     infra_failed = [f for f in failed if not f.startswith("Props/") and f not in cfg.get("obligation_files", [])]
